@@ -41,6 +41,13 @@ def make_cases(ctx):
     n = ctx.pick(4000, 60000)
     for i in range(n):
         yield "p%d" % i, {"i": i}
+    # certificate chains of more than one certificate, both directions, with
+    # and without a delegated credential (TLS 1.3)
+    for ver in pair.VERSIONS:
+        for dc in ((False, True) if ver == (3, 4) else (False,)):
+            for n in (2, 3):
+                yield "dchain-%d-%d-%d" % (ver[1], dc, n), {
+                    "dchain": [ver, dc, n]}
     # one hash only for the signature family of the server's key, on either
     # side, for every family and hash
     for fam, keys in (("rsa", ["rsa", "rsapss"]),
@@ -196,6 +203,74 @@ def run_helper(ctx, cid, P):
     ctx.cell("outcome", "helper|%s|%d|%s" % (flav, j, su.name if su else "?"))
 
 
+def run_dchain(ctx, cid, P):
+    from tlslite.x509certchain import X509CertChain
+    from tlslite.x509 import Credential, DelegatedCredential
+    from tlslite.utils.asn1parser import ASN1Parser
+    from vt.pair import ver_settings
+    ver, dc, n = P["dchain"]
+    ver = tuple(ver)
+    ee_chain, ee_key = creds.server("ecdsa256")
+    extra = [creds.server(k)[0].x509List[0] for k in ("rsa", "ecdsa384")]
+    chain = X509CertChain([ee_chain.x509List[0]] + extra[:n - 1])
+    cl_chain0, cl_key = creds.client("rsa")
+    cl_chain = X509CertChain([cl_chain0.x509List[0]] + extra[:n - 1])
+    ckw = {}
+    skw = {}
+    if dc:
+        dchain, dkey = creds.server("ed25519")
+        spki = bytes(ASN1Parser(dchain.x509List[0].bytes).getChild(0)
+                     .getChildBytes(6))
+        cb = Credential.marshal(3600, (8, 7), bytearray(spki))
+        sig = ee_key.hashAndSign(bytearray(
+            DelegatedCredential.compute_certificate_dc_sig_context(
+                ee_chain.x509List[0].bytes, cb, (4, 3))), None, "sha256",
+            None)
+        skw = dict(dc_key=dkey, del_cred=DelegatedCredential(
+            cred=Credential(valid_time=3600,
+                            dc_cert_verify_algorithm=(8, 7),
+                            subject_public_key_info=bytearray(spki),
+                            bytes=cb), algorithm=(4, 3), signature=sig))
+        ckw = dict(dc_sig_algs=[(8, 7)])
+    fl = Flavor("cert", skey="ecdsa256", req_cert=True,
+                cset=ver_settings(ver, **ckw), sset=ver_settings(ver))
+    fl.server_kw = dict(skw, certChain=chain, privateKey=ee_key)
+    fl.client_kw = dict(certChain=cl_chain, privateKey=cl_key)
+    p = Pair()
+    tc, ts = p.run(c05_client_gen(fl, p.c), fl.server_gen(p.s))
+    ctx.ev()
+    ctx.count("chain_handshakes")
+    fkey = {"flavour": "cert", "skeytype": "ecdsa", "directed": "chain"}
+    desc = {"case": cid, "features": P["dchain"],
+            "outcome": [outcome(tc), outcome(ts)]}
+    if tc.status != "done" or ts.status != "done":
+        ctx.violation(dict(fkey, clause="honest_handshake_failed",
+                           ver=pair.VNAME[ver]), desc,
+                      "%r / %r" % (tc.exc, ts.exc))
+        return
+    for name, conf, a, b in (
+            ("serverCertChain", chain, p.c.session.serverCertChain,
+             p.s.session.serverCertChain),
+            ("clientCertChain", cl_chain, p.c.session.clientCertChain,
+             p.s.session.clientCertChain)):
+        want = chain_bytes(conf)
+        for who, got in (("client", a), ("server", b)):
+            if chain_bytes(got) != want:
+                ctx.violation(dict(fkey, clause="view_mismatch", field=name,
+                                   who=who, ver=pair.VNAME[ver]), desc,
+                              "%s's %s has %s certificates, configured %d" % (
+                                  who, name, len(chain_bytes(got) or []),
+                                  len(want)))
+    ctx.cell("outcome", "chain|%s|dc%d|%d" % (pair.VNAME[ver], dc, n))
+
+
+def c05_client_gen(fl, conn):
+    kw = dict(session=fl.session, settings=fl.cset, checker=fl.checker_c,
+              serverName=fl.sni, async_=True)
+    kw.update(fl.client_kw)
+    return conn.handshakeClientCert(**kw)
+
+
 def run_dres(ctx, cid, P):
     from tlslite.sessioncache import SessionCache
     from vt.flavours import TK
@@ -264,7 +339,8 @@ def draw(rng):
     if rng.random() < 0.1:
         npn_c = []
         npn_s = rng.sample(PROTOS, rng.randint(1, 3))
-    sni = rng.choice([None, None, "example.com", "host.test"])
+    sni = rng.choice([None, None, "example.com", "host.test",
+                      "WWW.Example.COM"])
     if kind == "psk":
         psk = (creds.PSK_ID, creds.PSK_SECRET, rng.choice(["sha256",
                                                            "sha384"]))
@@ -296,6 +372,8 @@ def draw(rng):
 def run_case(ctx, cid, P):
     if "dres" in P:
         return run_dres(ctx, cid, P)
+    if "dchain" in P:
+        return run_dchain(ctx, cid, P)
     if "helper" in P:
         return run_helper(ctx, cid, P)
     rng = ctx.rng
